@@ -537,6 +537,7 @@ type Contract struct {
 	Before   map[string][]Clause // "callee#k" -> assertions proved right before that call
 	CoverBefore map[string][]Clause // "callee#k" -> conditions under which that call must be reachable
 	AtReturn []Clause            // assertions over the locals, proved at every return of the function
+	Preserves []Clause          // closure: state invariant of the iteration it is the body of (requires + ensures; proved before and assumed after an external call that is handed the closure)
 }
 
 type SpecFunc struct {
@@ -573,7 +574,7 @@ func newSpecSet() *SpecSet {
 }
 
 var clauseKW = map[string]bool{"func": true, "method": true, "closure": true, "requires": true, "ensures": true, "modifies": true,
-	"decreases": true, "loop": true, "trusted": true, "pure": true, "noinline": true, "spec": true, "axiom": true, "lemma": true, "package": true, "assert": true, "invariant": true, "establishes": true, "inline": true, "cover": true, "typeinv": true}
+	"decreases": true, "loop": true, "trusted": true, "pure": true, "noinline": true, "spec": true, "axiom": true, "lemma": true, "package": true, "assert": true, "invariant": true, "establishes": true, "inline": true, "cover": true, "typeinv": true, "preserves": true}
 
 // parseContractLines parses the "//@" lines of one file. pkgPath is the Go package whose scope resolves type names.
 func (ss *SpecSet) parseContractLines(lines []string, pkgPath, file string) error {
@@ -688,6 +689,14 @@ func (ss *SpecSet) parseContractLines(lines []string, pkgPath, file string) erro
 				return fmt.Errorf("%s: clause %q outside a func block", file, st)
 			}
 			switch kw {
+			case "preserves":
+				c, err := mk(rest)
+				if err != nil {
+					return err
+				}
+				cur.Requires = append(cur.Requires, c)
+				cur.Ensures = append(cur.Ensures, c)
+				cur.Preserves = append(cur.Preserves, c)
 			case "requires", "ensures":
 				c, err := mk(rest)
 				if err != nil {
